@@ -20,6 +20,8 @@ FRESH_METHODS = {'copy', 'deepcopy', '__copy__', '__deepcopy__', 'to_dataset', '
 VIEW_METHODS = {'isel', 'sel', 'squeeze', 'transpose', 'expand_dims', 'values', 'variables', 'data_vars', 'coords'}
 
 # numpy constructors: does the result own its data?  (copy= overrides the default)
+INPLACE_FIRST_ARGUMENT = {'copyto', 'put', 'place', 'putmask', 'fill_diagonal', 'put_along_axis', 'shuffle'}
+INPLACE_WHEN_NOT_COPYING = {'nan_to_num'}
 COPY_DEFAULT_TRUE = {'array', 'masked_invalid', 'masked_equal', 'masked_where', 'masked_values', 'copy', 'full_like', 'zeros_like', 'empty_like'}
 COPY_DEFAULT_FALSE = {'asarray', 'asanyarray', 'masked_array', 'MaskedArray', 'ascontiguousarray', 'atleast_1d', 'ravel', 'reshape', 'transpose', 'squeeze'}
 
@@ -178,6 +180,20 @@ def writes_in(fi: FuncInfo, flow: Flow) -> Iterator[tuple[ast.AST, ast.AST, str]
             yield node, node.func.value, 'in-place ' + node.func.attr + '()'
         elif isinstance(node, ast.Call) and dotted(node.func) in ('setattr', 'delattr') and node.args:
             yield node, node.args[0], dotted(node.func) + '()'
+        elif isinstance(node, ast.Call) and isinstance(node.func, ast.Attribute) and _is_module_function(flow, node.func):
+            # library functions that write into an argument: numpy.copyto(dst, ...), numpy.put(a, ...), an `out=` array,
+            # numpy.nan_to_num(x, copy=False) ...
+            fname = node.func.attr
+            if fname in INPLACE_FIRST_ARGUMENT and node.args:
+                yield node, node.args[0], f"in-place {dotted(node.func)}()"
+            elif fname in INPLACE_WHEN_NOT_COPYING and node.args:
+                copy_kw = next((k.value for k in node.keywords if k.arg == 'copy'), None)
+                if copy_kw is not None and getattr(copy_kw, 'value', None) is not True:
+                    yield node, node.args[0], f"in-place {dotted(node.func)}(copy={norm_text(copy_kw)})"
+            for k in node.keywords:
+                if k.arg == 'out' and not (isinstance(k.value, ast.Constant) and k.value.value is None):
+                    for o in (k.value.elts if isinstance(k.value, ast.Tuple) else [k.value]):
+                        yield node, o, f"{dotted(node.func)}(out=...)"
 
 
 def writes_through(fi: FuncInfo, flow: Flow, param: str) -> list[tuple[ast.AST, str]]:
